@@ -17,9 +17,12 @@ MANIFEST = dict(
     technique="Lean 4 proof (index model refines FIFO spec, invariant by induction over operations) + "
               "differential correspondence of cbuf.c against the compiled model",
     text="Theorems in lean/PdshVerif/Props/C13.lean about the index-level model of cbuf.c (all op sequences, "
-         "all sizes, all three modes); the model is executed against the real cbuf.c (assertions+ASan and "
-         "shipped flavour) on generated op histories, and the real code is also compared op by op with the "
-         "plain FIFO specification, which yields the failing history as replay.",
+         "all sizes, all three modes; the property's operation list and, beyond it, replay/rewind, the *_to_fd "
+         "calls on a descriptor that takes only some bytes, and copy/move between two buffers); the protocol "
+         "driver executes exactly the step functions the theorems are about; the model is executed against the "
+         "real cbuf.c (assertions+ASan and shipped flavour) on generated op histories, and the real code is "
+         "also compared op by op with the FIFO specification (with its history of replayable bytes), which "
+         "yields the failing history as replay.",
     design_ref="DESIGN.md section 5 C13",
     note="Lean 4.33 kernel; axioms propext/Classical.choice/Quot.sound at most (audited per theorem every run); "
          "hand-written model tied to cbuf.c by differential execution of the real source built from /repo's "
